@@ -14,17 +14,18 @@ import (
 // ConnScenario drives ONE BaseClient through its lifecycle (C16, parts of C11).
 //
 //	connack: accept | refuse | silent | malformed | peerclose
-//	steps:   sample | peerclose | localclose | malformed | disconnect | kaerr | wait | sleep
+//	steps:   sample | peerclose | localclose | malformed | disconnect | kaerr | wait | sleep | in1 | in2 (inbound QoS 1 / 2 message)
 //	         a step name with suffix "!" is issued without waiting for the previous step to settle
 //	hold:    "closedcb": the reader's Closed callback is held (hook connStateCb, build tag verif)
 //	         until the following step has been issued (forces the F14 interleaving)
 type ConnScenario struct {
-	ID            string         `json:"id"`
-	ConnAck       string         `json:"connack"`
-	ConnectCancel bool           `json:"connectCancel"` // cancel Connect's context while it waits for CONNACK
-	Steps         []string       `json:"steps"`
-	Hold          string         `json:"hold,omitempty"`
-	Batch         []ConnScenario `json:"batch,omitempty"`
+	ID            string             `json:"id"`
+	ConnAck       string             `json:"connack"`
+	ConnectCancel bool               `json:"connectCancel"` // cancel Connect's context while it waits for CONNACK
+	Steps         []string           `json:"steps"`
+	Hold          string             `json:"hold,omitempty"`
+	Faults        []netsim.FaultRule `json:"faults,omitempty"` // write faults, e.g. the client's PUBCOMP cannot be written
+	Batch         []ConnScenario     `json:"batch,omitempty"`
 }
 
 func init() { register("conn", runConnRaw) }
@@ -47,7 +48,9 @@ func runConn(sc *ConnScenario) *RetryResult {
 	case "silent", "malformed", "peerclose":
 		plan.ConnAcks = []netsim.ConnAckPlan{{Silent: true}}
 	}
+	plan.Writes = append(plan.Writes, sc.Faults...)
 	w := netsim.NewWorld(plan)
+	w.AutoRelease = true
 	rec := w.Rec
 	info := map[string]interface{}{}
 	var release chan struct{}
@@ -157,6 +160,11 @@ func runConn(sc *ConnScenario) *RetryResult {
 			cli.Close()
 		case "malformed":
 			t.SendRaw([]byte{0xF0, 0x00}, "reserved-type")
+		case "in1":
+			// an application message from the broker: the reader goroutine has to write an acknowledgement
+			w.Send(t, netsim.Publish("in", netsim.PayloadOf(1), 1, 11, false, false))
+		case "in2":
+			w.Send(t, netsim.Publish("in", netsim.PayloadOf(2), 2, 12, false, false))
 		case "badflags":
 			t.SendRaw([]byte{0x41, 0x02, 0x00, 0x01}, "PUBACK-badflags")
 		case "disconnect":
